@@ -266,32 +266,41 @@ def split_line(l):
 
 def run_cases(exe, lines, d, tag, timeout):
     """run an executable (harness or model driver) over the case lines in NPARTS parallel parts;
-    -> (dict case -> result, list of (part, rc, last unfinished case or None, output tail))"""
+    -> (dict case -> result, list of (part, rc, last unfinished case or None, output tail)).
+    A part that dies on a case (crash, alarm, memory limit) is restarted after that case, a few times."""
     os.makedirs(d, exist_ok=True)
     n = max(1, min(NPARTS, len(lines) // 50 + 1))
-    parts = [lines[i::n] for i in range(n)]
-    cmds = []
-    for i, part in enumerate(parts):
-        fi = os.path.join(d, "%s_in_%d.txt" % (tag, i))
-        with open(fi, "w") as f:
-            f.write("\n".join(part) + "\n")
-        cmds.append([exe, fi, os.path.join(d, "%s_out_%d.txt" % (tag, i))])
-    rs = run_parallel(cmds, timeout)
+    todo = [lines[i::n] for i in range(n)]
     got, problems = {}, []
-    for i, (rc, o) in enumerate(rs):
-        fo = os.path.join(d, "%s_out_%d.txt" % (tag, i))
-        unfinished = None
-        if os.path.exists(fo):
-            for l in open(fo, errors="replace"):
-                case, res = split_line(l)
-                if not case:
-                    continue
-                if res is None or not l.endswith("\n") or res == "":
-                    unfinished = case
-                else:
-                    got[case] = res
-        if rc != 0 or unfinished:
-            problems.append((i, rc, unfinished, o[-400:]))
+    t_end = time.time() + timeout
+    for rnd in range(6):
+        live = [(i, part) for i, part in enumerate(todo) if part]
+        if not live or time.time() > t_end:
+            break
+        cmds = []
+        for i, part in live:
+            fi = os.path.join(d, "%s_in_%d_%d.txt" % (tag, i, rnd))
+            with open(fi, "w") as f:
+                f.write("\n".join(part) + "\n")
+            cmds.append([exe, fi, os.path.join(d, "%s_out_%d_%d.txt" % (tag, i, rnd))])
+        rs = run_parallel(cmds, max(5, t_end - time.time()))
+        for (i, part), (rc, o) in zip(live, rs):
+            fo = os.path.join(d, "%s_out_%d_%d.txt" % (tag, i, rnd))
+            unfinished = None
+            if os.path.exists(fo):
+                for l in open(fo, errors="replace"):
+                    case, res = split_line(l)
+                    if not case:
+                        continue
+                    if res is None or not l.endswith("\n") or res == "":
+                        unfinished = case
+                    else:
+                        got[case] = res
+            todo[i] = []
+            if rc != 0 or unfinished:
+                problems.append((i, rc, unfinished, o[-400:]))
+                if unfinished in part:
+                    todo[i] = part[part.index(unfinished) + 1:]
     return got, problems
 
 
@@ -324,10 +333,14 @@ def check_against_reference(case, cxx):
         exp = ref_path_line(fam, head, array, us[0])
         if cxx == exp:
             return "ok", exp, ""
+        if cxx.startswith("rej") != exp.startswith("rej"):
+            return "bad", exp, "hash_splitter::is_correct accepts/rejects another set of widths"
         return ("bad" if ref_proved(fam, h1, a1) else "outside"), exp, "cut sequence"
     exp, hs_h, hs_a, ls = ref_set_line(fam, head, array, us)
     main, _, suffix = cxx.partition(" ; ")
     if main != exp:
+        if main.startswith("rej") != exp.startswith("rej"):
+            return "bad", exp, "hash_splitter::is_correct accepts/rejects another set of widths"
         return ("bad" if ref_proved(fam, h1, a1) else "outside"), exp, "insert results / landing slots"
     if exp.startswith("rej"):
         return "ok", exp, ""
@@ -393,7 +406,7 @@ def run(ctx):
         shutil.rmtree(sw, ignore_errors=True)
         corpus_cases = [split_line(l)[0] for l in corpus]
         t1 = time.time()
-        cxx, cxx_problems = run_cases(exe, list(collections.OrderedDict.fromkeys(corpus_cases + lines)), sw, "cxx", 900)
+        cxx, cxx_problems = run_cases(exe, list(collections.OrderedDict.fromkeys(corpus_cases + lines)), sw, "cxx", 400)
         ctx.log("real code: %d cases run in %.0fs" % (len(cxx), time.time() - t1))
     finally:
         th.join()
@@ -429,7 +442,8 @@ def run(ctx):
     # a crash / hang of the real code: the unfinished line is the failing input
     for (part, rc, unfinished, tail) in cxx_problems:
         if unfinished:
-            ctx.violation("the real code crashed or hung on this case (harness/C28/main.cpp, rc=%s)" % rc,
+            ctx.violation("the real code crashed, hung or exhausted memory on this case (harness/C28/main.cpp; rc -11/-7 = memory fault, "
+                          "-14 = alarm, -6 = abort, -8 = division by zero)",
                           {"input": unfinished, "input_lines": [unfinished], "rc": rc, "output_tail": tail,
                            "how_to_replay": "bin/check C28 --replay <this file>"}, signature="crash:" + unfinished)
         else:
@@ -470,7 +484,7 @@ def run(ctx):
     seen = set()
     for (case, exp, g, detail) in bad:
         kind, fam, _ = parse_case(case)
-        key = (kind, fam)
+        key = kind
         if key in seen:
             continue
         seen.add(key)
@@ -522,14 +536,15 @@ def run(ctx):
                 continue
             if g.partition(" ; ")[0] != m:
                 disagreements.append((case, m, g))
+    ref_kinds = set(seen)        # kinds already reported against the reference: the same deviation, not reported twice
     seen = set()
     for (case, m, g) in disagreements:
-        k = case.split()[0]
-        if k in seen:
+        k = case.split()[0].partition(".")[0]
+        if k in seen or k in ref_kinds:
             continue
         seen.add(k)
         ctx.violation("compiled C++ and the extracted Coq model disagree for %s (the hand-written part of the model, the translator "
-                      "or CInt no longer matches the code)" % k,
+                      "or CInt no longer matches the code)" % case.split()[0],
                       {"input": case, "input_lines": [case], "expected": m, "observed": g, "expected_is": "extracted LV.Model.FeldmanPath",
                        "observed_is": "compiled code of $VERIF_REPO"}, signature="diff:" + case)
     cov["model_disagreements"] = len(disagreements)
